@@ -18,6 +18,7 @@ type rule struct {
 	nth  int    // -1 = any
 	act  string
 	muts []mutReq
+	subs []string
 }
 
 type mutReq struct {
@@ -41,6 +42,9 @@ type OpObs struct {
 	EI      int
 	Views   *Views
 	IsOp    bool
+	IsSub   bool
+	Closed  []int
+	Canceled []int
 	Out     string // canonical output line
 }
 
@@ -101,6 +105,8 @@ func (e *Event) String() string {
 		return "QE"
 	case "N":
 		return fmt.Sprintf("N(%s:%s:%s|%d|%s)", e.MutKind, showList(e.Called), b(e.HasArgs), e.QLen, e.ResStr)
+	case "W":
+		return fmt.Sprintf("W(%s|%s)", e.HName, e.ResStr)
 	}
 	return "?"
 }
@@ -129,6 +135,14 @@ type Runner struct {
 	Timeout  time.Duration
 	cancel   context.CancelFunc
 	tracerN  int
+	// subscriptions
+	chans    []<-chan struct{} // index = id (0 unused)
+	kinds    []string          // "ch" | "ctx" | "sctx"
+	ctxs     map[int]context.Context
+	cancels  map[int]context.CancelFunc
+	nextId   int
+	nctx     int
+	uctx     map[int]context.Context
 }
 
 type recTracer struct {
@@ -223,7 +237,8 @@ func (t *recTracer) QueueEnd(m am.Api) { t.r.push(Event{Kind: "QE"}) }
 
 // NewRunner builds the real machine for a schema line.
 func NewRunner(sch *Schema, timeout time.Duration) (*Runner, error) {
-	r := &Runner{Sch: sch, counts: map[string]int{}, Timeout: timeout}
+	r := &Runner{Sch: sch, counts: map[string]int{}, Timeout: timeout,
+		ctxs: map[int]context.Context{}, cancels: map[int]context.CancelFunc{}, uctx: map[int]context.Context{}}
 	schema := am.Schema{}
 	for i, d := range sch.Defs {
 		schema[sch.Names[i]] = am.State{Auto: d.Auto, Multi: d.Multi,
@@ -266,6 +281,31 @@ func (r *Runner) closeForce() {
 	case <-time.After(2 * time.Second):
 	}
 	r.cancel()
+}
+
+func (r *Runner) behaviourFull(bind int, name string) (string, []mutReq, []string) {
+	key := strconv.Itoa(bind) + "/" + name
+	r.mx.Lock()
+	n := r.counts[key]
+	r.counts[key] = n + 1
+	r.mx.Unlock()
+	var anyRule *rule
+	for i := range r.rules {
+		ru := &r.rules[i]
+		if ru.bind != bind || ru.name != name {
+			continue
+		}
+		if ru.nth == n {
+			return ru.act, ru.muts, ru.subs
+		}
+		if ru.nth == -1 && anyRule == nil {
+			anyRule = ru
+		}
+	}
+	if anyRule != nil {
+		return anyRule.act, anyRule.muts, anyRule.subs
+	}
+	return "t", nil, nil
 }
 
 func (r *Runner) behaviour(bind int, name string) (string, []mutReq) {
@@ -311,13 +351,21 @@ func (r *Runner) issue(q mutReq) am.Result {
 }
 
 func (r *Runner) runHandler(bind int, name string, e *am.Event) bool {
-	act, muts := r.behaviour(bind, name)
+	act, muts, subs := r.behaviourFull(bind, name)
 	r.push(Event{Kind: "H", Bind: bind, HName: name,
 		Active: r.idx(e.Machine().ActiveStates(nil))})
+	defer func() {
+		// (subscriptions are issued after the mutations, before returning)
+	}()
+	_ = subs
 	for _, q := range muts {
 		ql := int(r.M.QueueLen())
 		res := r.issue(q)
 		r.push(Event{Kind: "N", MutKind: q.kind, Called: q.states, HasArgs: q.hasArgs, QLen: ql, ResStr: resStr(res)})
+	}
+	for _, sreq := range subs {
+		out := r.doSub(sreq)
+		r.push(Event{Kind: "W", HName: sreq, ResStr: out})
 	}
 	if strings.HasPrefix(act, "detach:") {
 		r.M.HandlersDetach("b" + act[7:])
@@ -400,6 +448,10 @@ func (r *Runner) Step(line string) (obs OpObs) {
 			ru.nth, _ = strconv.Atoi(toks[3])
 		}
 		for _, mt := range toks[5:] {
+			if strings.HasPrefix(mt, "~") {
+				ru.subs = append(ru.subs, mt[1:])
+				continue
+			}
 			mt = strings.TrimPrefix(mt, "+")
 			q := mutReq{}
 			if strings.HasSuffix(mt, "!") {
@@ -432,6 +484,43 @@ func (r *Runner) Step(line string) (obs OpObs) {
 		return
 	case "fuel":
 		obs.Out = "ok"
+		return
+	case "sub":
+		if err := r.bindAll(); err != nil {
+			obs.Out = "bind-error"
+			return
+		}
+		out := r.doSub(toks[1])
+		obs.Out = "ch=" + out + " " + r.subState()
+		obs.IsSub = true
+		return
+	case "ctx":
+		if toks[1] == "new" {
+			r.nctx++
+			id := r.nctx
+			c, cancel := context.WithCancel(context.Background())
+			r.uctx[id], r.cancels[id] = c, cancel
+			obs.Out = "ctx=" + strconv.Itoa(id)
+		} else if len(toks) > 2 {
+			id, _ := strconv.Atoi(toks[2])
+			if cn, ok := r.cancels[id]; ok {
+				cn()
+			}
+			obs.Out = "ok"
+		}
+		return
+	case "dispose":
+		done := make(chan struct{})
+		go func() {
+			defer func() { recover(); close(done) }()
+			r.M.DisposeForce()
+		}()
+		select {
+		case <-done:
+		case <-time.After(5 * time.Second):
+		}
+		obs.Out = "disposed " + r.subState()
+		obs.IsSub = true
 		return
 	}
 	// operations
@@ -500,9 +589,13 @@ func (r *Runner) Step(line string) (obs OpObs) {
 		return
 	}
 	// errInternal drain
+drainEI:
 	for {
 		select {
-		case <-r.M.ErrInternal():
+		case _, ok := <-r.M.ErrInternal():
+			if !ok {
+				break drainEI // closed by dispose
+			}
 			obs.EI++
 			continue
 		default:
@@ -531,9 +624,10 @@ func (r *Runner) Step(line string) (obs OpObs) {
 	if obs.Crash != "" {
 		crashTag = " CRASH"
 	}
-	obs.Out = fmt.Sprintf("res=%s act=%s clk=%s qt=%d q=%d ei=%d%s log=%s",
+	obs.Closed, obs.Canceled = r.closedIds()
+	obs.Out = fmt.Sprintf("res=%s act=%s clk=%s qt=%d q=%d ei=%d%s cl=%s xc=%s log=%s",
 		obs.ResStr, showList(obs.Active), showU64(obs.Clock), obs.QTick,
-		obs.QLen, obs.EI, crashTag, strings.Join(evs, " "))
+		obs.QLen, obs.EI, crashTag, showList(obs.Closed), showList(obs.Canceled), strings.Join(evs, " "))
 	return
 }
 
@@ -554,4 +648,133 @@ func (r *Runner) views() *Views {
 	v.StringOut = m.String()
 	v.ActiveSub = r.idx(m.ActiveStates(am.S(r.Sch.Names)))
 	return v
+}
+
+func (r *Runner) allocId(kind string) int {
+	if r.nextId == 0 {
+		r.nextId = 1
+		r.chans = []<-chan struct{}{nil}
+		r.kinds = []string{""}
+	}
+	id := r.nextId
+	r.nextId++
+	r.chans = append(r.chans, nil)
+	r.kinds = append(r.kinds, kind)
+	return id
+}
+
+func (r *Runner) ctxArg(s string) context.Context {
+	if s == "-" || s == "" {
+		return nil
+	}
+	id, _ := strconv.Atoi(s)
+	return r.uctx[id]
+}
+
+func isClosed(ch <-chan struct{}) bool {
+	select {
+	case <-ch:
+		return true
+	default:
+		return false
+	}
+}
+
+// regChan maps a returned channel to its id ("c" = already closed and unknown).
+func (r *Runner) regChan(ch <-chan struct{}) string {
+	r.mx.Lock()
+	defer r.mx.Unlock()
+	for id := 1; id < len(r.chans); id++ {
+		if r.kinds[id] == "ch" && r.chans[id] == ch {
+			return strconv.Itoa(id)
+		}
+	}
+	if isClosed(ch) {
+		return "c"
+	}
+	id := r.allocId("ch")
+	r.chans[id] = ch
+	return strconv.Itoa(id)
+}
+
+// doSub executes a subscription request in protocol form.
+func (r *Runner) doSub(req string) (out string) {
+	defer func() {
+		if p := recover(); p != nil {
+			out = "PANIC"
+		}
+	}()
+	p := strings.Split(req, ":")
+	m := r.M
+	one := func(i int) string { return r.names([]int{i})[0] }
+	atoi := func(s string) int { v, _ := strconv.Atoi(s); return v }
+	switch p[0] {
+	case "when":
+		return r.regChan(m.When(r.names(parseList(p[1])), r.ctxArg(p[2])))
+	case "whennot":
+		return r.regChan(m.WhenNot(r.names(parseList(p[1])), r.ctxArg(p[2])))
+	case "whentime":
+		var tt am.Time
+		for _, v := range parseList(p[2]) {
+			tt = append(tt, uint64(v))
+		}
+		return r.regChan(m.WhenTime(r.names(parseList(p[1])), tt, r.ctxArg(p[3])))
+	case "whenticks":
+		return r.regChan(m.WhenTicks(one(atoi(p[1])), atoi(p[2]), r.ctxArg(p[3])))
+	case "whennext":
+		return r.regChan(m.WhenNextActive(one(atoi(p[1])), r.ctxArg(p[2])))
+	case "whenquery":
+		st, mt := one(atoi(p[1])), uint64(atoi(p[2]))
+		return r.regChan(m.WhenQuery(func(c am.Clock) bool { return c[st] >= mt }, r.ctxArg(p[3])))
+	case "whenargs":
+		args := am.A{}
+		if p[2] == "1" {
+			args["x"] = 1
+		}
+		return r.regChan(m.WhenArgs(one(atoi(p[1])), args, r.ctxArg(p[3])))
+	case "whenqueue":
+		return r.regChan(m.WhenQueue(am.Result(atoi(p[1]))))
+	case "whenqueueends":
+		return r.regChan(m.WhenQueueEnds())
+	case "statectx":
+		c := m.NewStateCtx(one(atoi(p[1])))
+		r.mx.Lock()
+		defer r.mx.Unlock()
+		for id, cc := range r.ctxs {
+			if r.kinds[id] == "sctx" && cc == c {
+				return strconv.Itoa(id)
+			}
+		}
+		if m.IsDisposed() {
+			return "c"
+		}
+		id := r.allocId("sctx")
+		r.ctxs[id] = c
+		return strconv.Itoa(id)
+	}
+	return "bad"
+}
+
+func (r *Runner) closedIds() ([]int, []int) {
+	r.mx.Lock()
+	defer r.mx.Unlock()
+	var cl, xc []int
+	for id := 1; id < len(r.chans); id++ {
+		switch r.kinds[id] {
+		case "ch":
+			if isClosed(r.chans[id]) {
+				cl = append(cl, id)
+			}
+		case "sctx":
+			if r.ctxs[id].Err() != nil {
+				xc = append(xc, id)
+			}
+		}
+	}
+	return cl, xc
+}
+
+func (r *Runner) subState() string {
+	cl, xc := r.closedIds()
+	return "cl=" + showList(cl) + " xc=" + showList(xc)
 }
